@@ -529,7 +529,13 @@ def main_wrapper(fn):
         tb = traceback.extract_tb(e.__traceback__)
         repo = os.path.realpath(REPO)
         inside = [f for f in tb if os.path.realpath(f.filename).startswith(os.path.join(repo, "typhon"))]
-        os_level = isinstance(e, (OSError, MemoryError)) and not inside
+        # resource problems of the machine are infrastructure; a missing / unexpected file is not (the harness only
+        # touches files the code under test was supposed to create, and it passes on the unchanged code)
+        import errno as _errno
+        os_level = (isinstance(e, MemoryError)
+                    or (isinstance(e, OSError) and not inside
+                        and getattr(e, "errno", None) in (_errno.ENOSPC, _errno.EACCES, _errno.EPERM, _errno.EMFILE, _errno.ENFILE,
+                                                          _errno.EROFS, _errno.EIO, _errno.ENOMEM, _errno.EDQUOT)))
         if ck is None or getattr(ck, "_finishing", False) or os_level or os.environ.get("VERIF_HARNESS_EXC_IS_INFRA"):
             print("INFRA-ERROR unexpected exception in harness", file=sys.stderr)
             sys.exit(2)
